@@ -165,6 +165,10 @@ def payloads(canary):
         ("path_abs", f"{canary}/MARK17.txt"),
         ("path_up", "../canary/keep.txt"),
         ("path_source", "main.F90"),
+        # shell syntax: text that, handed to a shell for variable / tilde expansion, would run a command
+        ("shell_subst", f"build$(touch {canary}/MARK21)"),
+        ("shell_backtick", f"`touch {canary}/MARK22`$UNSET_VAR_C17"),
+        ("shell_default", "${UNSET_VAR_C17:-`touch " + canary + "/MARK23`}/src"),
     ]
 
 
@@ -214,6 +218,7 @@ def sites(P):
     S["config_scalars"] = w("#if Y\n#endif\n", config={"nthreads": P, "max_line_length": P, "recursion_limit": 1000,
                                                        "pp_defs": {"Y": "1"}, "debug_log": True})
     S["function_macro_noparams"] = w(f"#define X() {P}\n  v1 = X()\n")
+    S["cli_paths"] = w("", argv=["--source_dirs", P, ".", "--include_dirs", P, "--excl_paths", P])
     S["config_file_names"] = w("", config={"debug_log": P, "hover_language": P, "config": P, "source_dirs": ["."]})
     # conditions that are nothing but numbers and operators (no identifier for an evaluator to stumble over)
     S["numeric_condition"] = w(f"#define BASE 424242\n#if (BASE + 1) * 2 > 848485\n  integer :: a1\n#endif\n#if 7 * 6 == 42\n  integer :: a2\n#endif\n"
